@@ -40,7 +40,7 @@ n == Len(s)
 \* (1) the two formulations of the denotation agree on every span
 TwoFormulations == \A sp \in Spans(s) : MatchS(q, s, sp[1], sp[2]) = MatchD(q, s, sp[1], sp[2])
 \* (2) searching = matching with arbitrary context, anchors still seeing the real subject
-SearchIsContextMatch == Search(r, s) = SearchAsMatch(r, s)
+SearchIsContextMatch == Search(r, s) = SearchAsMatch(r, s) /\ Search(r, s) = SearchDef(r, s)
 SearchFromMatch == Matches(r, s) => Search(r, s)
 \* (3) algebraic laws of the derivative matcher
 Same(a, b) == \A sp \in Spans(s) : MatchD(a, s, sp[1], sp[2]) = MatchD(b, s, sp[1], sp[2])
